@@ -1,13 +1,13 @@
 #!/bin/bash
 # seedrun2.sh <ID> <n> [checkID] [tier]: run a check against a seed agent's worktree (/tmp/seed2/<ID>) with its patch
-# out/<n>/patch.diff applied, using a private copy of /verif (/tmp/verif2) so that /repo and /verif are untouched.
+# out/<n>/patch.diff applied, using a private copy of /verif ($VERIF2, default /tmp/verif2) so that /repo and /verif are untouched.
 ID="$1"; N="$2"; CK="${3:-$1}"; TIER="${4:-quick}"
 WT=${SEEDROOT:-/tmp/seed5}/$ID
 cd $WT || exit 2
 git checkout -q -- . ; git apply --exclude='out/*' out/$N/patch.diff || { echo "patch does not apply"; exit 2; }
-rsync -a --delete --exclude .work --exclude .git --exclude replays --exclude evidence /verif/ /tmp/verif2/
-mkdir -p /tmp/verif2/.work /tmp/verif2/evidence
-VERIF_DIR=/tmp/verif2 VERIF_REPO=$WT /tmp/verif2/vcheck $CK $TIER > /tmp/verif2/.work/seed.$ID-$N.$CK.log 2>&1; RC=$?
+rsync -a --delete --exclude .work --exclude .git --exclude replays --exclude evidence /verif/ ${VERIF2:-/tmp/verif2}/
+mkdir -p ${VERIF2:-/tmp/verif2}/.work ${VERIF2:-/tmp/verif2}/evidence
+VERIF_DIR=${VERIF2:-/tmp/verif2} VERIF_REPO=$WT ${VERIF2:-/tmp/verif2}/vcheck $CK $TIER > ${VERIF2:-/tmp/verif2}/.work/seed.$ID-$N.$CK.log 2>&1; RC=$?
 git checkout -q -- .
-echo "seed=$ID/$N check=$CK tier=$TIER exit=$RC $(grep -c '^VIOLATION' /tmp/verif2/.work/seed.$ID-$N.$CK.log) violation lines"
-grep '^VIOLATION\|HARNESS' /tmp/verif2/.work/seed.$ID-$N.$CK.log | cut -c1-250 | head -3
+echo "seed=$ID/$N check=$CK tier=$TIER exit=$RC $(grep -c '^VIOLATION' ${VERIF2:-/tmp/verif2}/.work/seed.$ID-$N.$CK.log) violation lines"
+grep '^VIOLATION\|HARNESS' ${VERIF2:-/tmp/verif2}/.work/seed.$ID-$N.$CK.log | cut -c1-250 | head -3
